@@ -254,11 +254,19 @@ func pipeScript(c PipeCfg) string {
 		}
 	} else if c.Shape == "fn5" || c.Shape == "fnvar" {
 		for k := 1; k <= c.NS; k++ {
-			if c.Shape == "fn5" {
-				fmt.Fprintf(&b, "go stage(%d, c%d, c%d, 10, 0)\n", k, k-1, k)
-			} else {
-				fmt.Fprintf(&b, "go stage(%d, c%d, c%d, 10)\n", k, k-1, k)
+			tag := strconv.Itoa(k)
+			if c.GoArgs {
+				// operands of a go call on the reflect call path (5 parameters / variadic): evaluated once, by the go statement, in order
+				tag = fmt.Sprintf("pv(%d, %d)", 100+k, k)
 			}
+			if c.Shape == "fn5" {
+				fmt.Fprintf(&b, "go stage(%s, c%d, c%d, 10, 0)\n", tag, k-1, k)
+			} else {
+				fmt.Fprintf(&b, "go stage(%s, c%d, c%d, 10)\n", tag, k-1, k)
+			}
+		}
+		if c.GoArgs {
+			b.WriteString("p(200)\n")
 		}
 	} else if c.GoArgs {
 		// the go call's arguments come from probe calls: they must be evaluated exactly once, before the goroutine starts
